@@ -6,6 +6,7 @@ import (
 	"net"
 	"sort"
 	"strings"
+	"time"
 
 	v3 "github.com/projectcalico/api/pkg/apis/projectcalico/v3"
 	corev1 "k8s.io/api/core/v1"
@@ -62,12 +63,16 @@ type opExec struct {
 	kind    opKind
 	actor   *actorState
 	invoke  int
+	invokeAt time.Duration // simulated time of invocation
 	handle  string
 	ip      string
 	rel     []ipam.ReleaseOptions
 	desc    string
 	faulted bool
 	handles []string // handles this operation may touch (for tainting)
+	// for auto-assignments: may this request use a pool containing ip (judged now)?  and its own block cap
+	poolUsable   func(ip net.IP) bool
+	reqMaxBlocks int
 }
 
 func (op *opExec) describe() string { return op.desc }
@@ -93,21 +98,23 @@ func (op *opExec) mayRelease(ip, handle string, seq uint64) string {
 		}
 		return fmt.Sprintf("it releases handle %q only", op.handle)
 	case opReleaseOwn, opReleaseObserved:
-		named := false
+		named, why := false, ""
 		for _, ro := range op.rel {
 			if ro.Address != ip {
 				continue
 			}
 			named = true
-			if ro.Handle != "" && ro.Handle != handle {
-				return fmt.Sprintf("stale: the request names handle %q", ro.Handle)
-			}
-			if ro.SequenceNumber != nil && *ro.SequenceNumber != seq {
-				return fmt.Sprintf("stale: the request names sequence number %d", *ro.SequenceNumber)
+			switch {
+			case ro.Handle != "" && ro.Handle != handle:
+				why = fmt.Sprintf("stale: the request names handle %q", ro.Handle)
+			case ro.SequenceNumber != nil && *ro.SequenceNumber != seq:
+				why = fmt.Sprintf("stale: the request names sequence number %d", *ro.SequenceNumber)
+			default:
+				return "" // some entry of the request legitimately names this allocation
 			}
 		}
 		if named {
-			return ""
+			return why
 		}
 		return "the request does not name this address"
 	}
@@ -191,7 +198,7 @@ func (a *actorState) run(ctx context.Context) {
 func (a *actorState) begin(kind opKind, desc string) *opExec {
 	w := a.w
 	a.opSeq++
-	op := &opExec{id: a.opSeq, kind: kind, actor: a, invoke: w.tick(), desc: fmt.Sprintf("%s#%d %s", a.name, a.opSeq, desc)}
+	op := &opExec{id: a.opSeq, kind: kind, actor: a, invoke: w.tick(), invokeAt: w.now(), desc: fmt.Sprintf("%s#%d %s", a.name, a.opSeq, desc)}
 	a.cur = op
 	w.r.Op("%s (event %d)", op.desc, op.invoke)
 	return op
@@ -261,6 +268,11 @@ func (a *actorState) exec(ctx context.Context, spec opSpec) {
 		}
 		op := a.begin(opAutoAssign, fmt.Sprintf("AutoAssign(num4=%d num6=%d handle=%s use=%s ns=%v pools=%v)", num4, num6, h, use, nsLabels, requested))
 		op.handle, op.handles = h, []string{h}
+		op.reqMaxBlocks = args.MaxBlocksPerHost
+		op.poolUsable = func(ip net.IP) bool {
+			ok, _ := w.poolAllowedInWindow(ip, w.seq, w.seq, use, a.host, nsLabels, requested)
+			return ok
+		}
 		v4, v6, err := a.client.AutoAssign(ctx, args)
 		var got []cnet.IPNet
 		if v4 != nil {
